@@ -23,10 +23,14 @@ def main():
         d = os.path.join(VERIF, "seeded", n)
         meta = json.load(open(os.path.join(d, "meta.json")))
         prop = str(meta.get("property", n[:3])).split()[0].strip(",;")
-        subprocess.run(["git", "-C", REPO, "checkout", "-q", "--", "."], check=True)
+        subprocess.run(["git", "-C", REPO, "reset", "-q", "--hard"], check=True)
         a = subprocess.run(["git", "-C", REPO, "apply", os.path.join(d, "patch.diff")], capture_output=True, text=True)
         if a.returncode != 0:
+            # written against an earlier commit of the repository (before later `fix:` commits touched the same lines)
             a = subprocess.run(["git", "-C", REPO, "apply", "-3", os.path.join(d, "patch.diff")], capture_output=True, text=True)
+            if a.returncode != 0 or subprocess.run(["git", "-C", REPO, "diff", "--name-only", "--diff-filter=U"], capture_output=True, text=True).stdout.strip():
+                a.returncode = 1
+                subprocess.run(["git", "-C", REPO, "reset", "-q", "--hard"], check=True)
         if a.returncode != 0:
             res[n] = {"property": prop, "rc": None, "kind": "patch-does-not-apply", "clause": a.stderr[:200]}
             print(n, prop, "patch does not apply")
@@ -46,7 +50,6 @@ def main():
             res[n] = e
             print(n, prop, "rc", r.returncode, e["kind"], e["clause"], flush=True)
         finally:
-            subprocess.run(["git", "-C", REPO, "checkout", "-q", "--", "."], check=True)
             subprocess.run(["git", "-C", REPO, "reset", "-q", "--hard"], check=True)
         json.dump(res, open(outp, "w"), indent=1)
 
